@@ -373,6 +373,18 @@ func (r *c04Run) remove(id int) {
 	}
 }
 
+// bounded runs f and reports whether it returned within the stall time-out.
+func bounded(f func()) bool {
+	done := make(chan struct{})
+	go func() { f(); close(done) }()
+	select {
+	case <-done:
+		return true
+	case <-time.After(stallTimeout()):
+		return false
+	}
+}
+
 func runC04(sc *c04Scenario) *Violation {
 	r := &c04Run{inv: map[int]map[int]int{}, removers: map[int]client.Remover{}, armed: map[int]*c04Op{}, pinFail: map[int]bool{},
 		fgSent: map[int]chan struct{}{}, bgSent: map[int]chan struct{}{}, kinds: map[int]bool{}, release: make(chan struct{})}
@@ -498,7 +510,7 @@ func runC04(sc *c04Scenario) *Violation {
 		}
 		return nil
 	}
-	for _, o := range sc.Ops[sc.PreRegs:] {
+	for oi, o := range sc.Ops[sc.PreRegs:] {
 		switch o.Op {
 		case "track":
 			if r.tc.C.StateTracker() != nil {
@@ -507,10 +519,16 @@ func runC04(sc *c04Scenario) *Violation {
 				r.tc.C.EnableStateTracking()
 			}
 		case "reg":
-			r.register(o.ID, o.Kind, o.Name)
+			if !bounded(func() { r.register(o.ID, o.Kind, o.Name) }) {
+				_, dump := goircGoroutines()
+				return &Violation{Property: "C04", Msg: fmt.Sprintf("op %d: registering a handler for %q never returned (the handler set is dead-locked)", oi, o.Name), Detail: dump}
+			}
 			m.hs[o.ID] = &c04H{id: o.ID, name: strings.ToLower(o.Name), bg: o.Kind == "bg", alive: true}
 		case "remove":
-			r.remove(o.ID)
+			if !bounded(func() { r.remove(o.ID) }) {
+				_, dump := goircGoroutines()
+				return &Violation{Property: "C04", Msg: fmt.Sprintf("op %d: Remove() never returned (the handler set is dead-locked)", oi), Detail: dump}
+			}
 			m.hs[o.ID].alive = false
 		case "arm":
 			oc := o
@@ -605,7 +623,10 @@ func runC04Solo(r *c04Run, solo string, letterCase int) *Violation {
 	waitCond(50*time.Millisecond, func() bool { return r.tc.conn().Pending() == 0 })
 	time.Sleep(300 * time.Microsecond)
 	armed := true
-	rem = reg("first", func(c *client.Conn, l *client.Line) {
+	regFirst := func(f func(c *client.Conn, l *client.Line)) bool {
+		return bounded(func() { rem = reg("first", f) })
+	}
+	if !regFirst(func(c *client.Conn, l *client.Line) {
 		if l.Text() == "0" {
 			return // the registration overtook the unobserved first event: not counted
 		}
@@ -621,7 +642,10 @@ func runC04Solo(r *c04Run, solo string, letterCase int) *Violation {
 		} else {
 			reg("second", nil)
 		}
-	})
+	}) {
+		_, dump := goircGoroutines()
+		return &Violation{Property: "C04", Msg: fmt.Sprintf("single handler under a name (%s): registering it never returned (the handler set is dead-locked)", solo), Detail: dump}
+	}
 	fail := func(what string) *Violation {
 		_, dump := goircGoroutines()
 		return &Violation{Property: "C04", Msg: fmt.Sprintf("single handler under a name (%s): %s", solo, what), Detail: dump}
